@@ -9,8 +9,8 @@ use serde::{Deserialize, Serialize};
 
 use crate::cfg::{AvailableValueMap, MathOp, RegisterSet};
 use crate::parser::{
-    CsrImm, HasRegisterSets, InstructionProperties, LabelString, LabelStringToken, LoadType,
-    RegisterProperties, StoreType,
+    CsrIType, CsrImm, CsrType, HasRegisterSets, InstructionProperties, LabelString,
+    LabelStringToken, LoadType, RegisterProperties, StoreType,
 };
 use crate::parser::{ParserNode, Register};
 use crate::passes::{CfgError, GenerationPass};
@@ -235,6 +235,16 @@ impl GenerationPass for AvailableValuePass {
                     } else if let Some((memory, value)) = node.gen_memory_value() {
                         map.insert(memory, value);
                     }
+                    if let Some((csr, content_unknown)) = written_csr(&node.node()) {
+                        // The words behind the old content of the CSR are not
+                        // the words behind the new one; after a set or clear the
+                        // content itself is not known any more
+                        map = retain_values(map, |location, value| match location {
+                            MemoryLocation::CsrRegisterValueOffset(c, _) => *c != csr,
+                            MemoryLocation::CsrRegister(c) => !(content_unknown && *c == csr),
+                            _ => !matches!(value, AvailableValue::ValueInCsr(c) if *c == csr),
+                        });
+                    }
                     if node.calls_to().is_some() {
                         // The callee is free to use everything below the stack pointer
                         let curr_stack = node.reg_values_in().stack_offset();
@@ -277,8 +287,10 @@ impl GenerationPass for AvailableValuePass {
                 if node.calls_to().is_some() {
                     redefined |= Register::return_addr_set();
                 }
+                let rewritten_csr = written_csr(&node.node()).map(|(csr, _)| csr);
                 let still_valid = |value: &AvailableValue| {
                     !matches!(value, AvailableValue::RegisterWithScalar(reg, _) if redefined.contains(reg))
+                        && !matches!(value, AvailableValue::ValueInCsr(csr) | AvailableValue::MemoryAtCsr(csr, _) if Some(*csr) == rewritten_csr)
                 };
                 // The zero register cannot be written: an instruction that names
                 // it as its destination leaves no value behind
@@ -318,6 +330,26 @@ fn retain_values<T: PartialEq + Eq + Hash>(
         }
     }
     kept
+}
+
+/// The CSR an instruction writes, and whether the new content is unknown (a
+/// set or clear of some bits). Set and clear with a zero source only read.
+fn written_csr(node: &ParserNode) -> Option<(CsrImm, bool)> {
+    match node {
+        ParserNode::Csr(expr) => match expr.inst.get() {
+            CsrType::Csrrw => Some((expr.csr.get_cloned(), false)),
+            CsrType::Csrrs | CsrType::Csrrc => {
+                (!expr.rs1.get().is_const_zero()).then(|| (expr.csr.get_cloned(), true))
+            }
+        },
+        ParserNode::CsrI(expr) => match expr.inst.get() {
+            CsrIType::Csrrwi => Some((expr.csr.get_cloned(), false)),
+            CsrIType::Csrrsi | CsrIType::Csrrci => {
+                (expr.imm.get().value() != 0).then(|| (expr.csr.get_cloned(), true))
+            }
+        },
+        _ => None,
+    }
 }
 
 /// Number of bytes written by a store instruction.
@@ -527,14 +559,31 @@ fn rule_push_value_to_csr_memory(
     available_in: &AvailableValueMap<Register>,
 ) {
     // If the node writes to memory
-    if let Some((source, (reg, off))) = node.stores_to_memory() {
+    if let Some((source, (reg, off), width)) = node.stores_to_memory() {
         // If the register contains a csr value
         if let Some(AvailableValue::ValueInCsr(csr)) = available_in.get(&reg) {
-            // Push the value to the memory
-            memory_out.insert(
-                MemoryLocation::CsrRegisterValueOffset(*csr, off.value()),
-                AvailableValue::RegisterWithScalar(source, 0),
-            );
+            // The store overwrites `width` bytes: every recorded word it
+            // overlaps is gone
+            let start = i64::from(off.value());
+            *memory_out = retain_values(std::mem::take(memory_out), |location, _| match location {
+                MemoryLocation::CsrRegisterValueOffset(c, word) if c == csr => {
+                    let word = i64::from(*word);
+                    word + 4 <= start || start + i64::from(width) <= word
+                }
+                _ => true,
+            });
+            // Only a word store fills a whole word
+            if width == 4 {
+                let value = if source.is_const_zero() {
+                    AvailableValue::Constant(0)
+                } else {
+                    AvailableValue::RegisterWithScalar(source, 0)
+                };
+                memory_out.insert(
+                    MemoryLocation::CsrRegisterValueOffset(*csr, off.value()),
+                    value,
+                );
+            }
         }
     }
 }
@@ -544,7 +593,7 @@ fn rule_pull_value_from_csr_memory(
     available_out: &mut AvailableValueMap<Register>,
     memory_out: &AvailableValueMap<MemoryLocation>,
 ) {
-    // If the node reads from memory
+    // If the node reads a whole word from memory
     if let Some(((reg, off), dest)) = node.reads_from_memory() {
         // If the source address is a csr memory location
         if let Some(AvailableValue::ValueInCsr(csr)) = available_out.get(&reg) {
